@@ -221,6 +221,12 @@ def outside_lower_bound(s, p):
     return max(0.0, max(float(n @ p) - support_val(s, n) for n in _normals(s, p)))
 
 
+def outside_lower_bound_m(s, p, margin):
+    """lower bound on the distance from local point p to the shape inflated by `margin`"""
+    p = np.asarray(p, dtype=float)
+    return max(0.0, max(float(n @ p) - support_val(s, n) - margin for n in _normals(s, p)))
+
+
 # ---------------- building real colliders ----------------
 def hull_triangles(V):
     from distance3d.mesh import make_convex_mesh
